@@ -6,6 +6,7 @@ import (
 	"sync/atomic"
 
 	"github.com/aperturerobotics/util/broadcast"
+	"github.com/aperturerobotics/util/verifhook"
 	"github.com/pkg/errors"
 )
 
@@ -84,6 +85,7 @@ func (m *RWMutex) Lock(ctx context.Context, write bool) (func(), error) {
 
 	// slow path: watch for changes
 	for {
+		verifhook.Point(verifhook.RWMutexBlock, m)
 		select {
 		case <-ctx.Done():
 			release()
